@@ -3,8 +3,9 @@ Props/C01.lean — the instruction table agrees with the MC6809 datasheet (i), a
 is encoded so that the datasheet decoder reads back the same operation and operand (ii).
 Statements, main theorems, finding witnesses and non-vacuity examples; helpers are in Lemmas/Encode*.lean.
 
-`Encodes o r x` (Lemmas/EncodeDecode.lean): `translateOperand o r = .ok pkg`, every statement carrying
-`pkg` emits `bytes`, `bytes.length = pkg.size`, and `decode bytes = some (⟨opOf r.mnemonic, x⟩, bytes.length)`.
+`Encodes o r x` (Lemmas/EncodeDecode.lean): `translateOperand o r = .ok pkg`, every statement carrying row,
+operand and `pkg` passes `fitWidth` (`Statement.fit_operand_width`) and then emits `bytes`,
+`bytes.length = pkg.size`, and `decode bytes = some (⟨opOf r.mnemonic, x⟩, bytes.length)`.
 -/
 import CoCoVerif.Lemmas.EncodeIndexed
 import CoCoVerif.Lemmas.EncodeWitness
@@ -105,6 +106,42 @@ theorem cell_ext {c : Nat} (hc : r.ext = some c) :
 
 end cells
 
+/-- a register-operand row (PSHS … TFR) has only an immediate cell, and that cell is a register-pair or
+register-list opcode -/
+def specialRowOk (r : InstrRow) : Bool :=
+  !r.isSpecial ||
+  (r.dir.isNone && r.ind.isNone && r.ext.isNone &&
+   match r.imm with
+   | some c => (match lookup c with | some (_, .pair) => true | some (_, .list) => true | _ => false)
+   | none => true)
+
+theorem special_rows : ∀ r ∈ Gen.instructions, specialRowOk r = true := by decide +kernel
+
+section notSpecial
+variable {r : InstrRow} (hr : r ∈ Gen.instructions)
+include hr
+
+theorem notSpecial_of_dir {c : Nat} (hc : r.dir = some c) : r.isSpecial = false := by
+  have h := special_rows r hr
+  cases hs : r.isSpecial <;> simp_all [specialRowOk]
+
+theorem notSpecial_of_ind {c : Nat} (hc : r.ind = some c) : r.isSpecial = false := by
+  have h := special_rows r hr
+  cases hs : r.isSpecial <;> simp_all [specialRowOk]
+
+theorem notSpecial_of_ext {c : Nat} (hc : r.ext = some c) : r.isSpecial = false := by
+  have h := special_rows r hr
+  cases hs : r.isSpecial <;> simp_all [specialRowOk]
+
+theorem notSpecial_of_imm {c : Nat} {op : String} {am : AM} (hc : r.imm = some c) (hl : lookup c = some (op, am))
+    (ham : am = .imm8 ∨ am = .imm16) : r.isSpecial = false := by
+  have h := special_rows r hr
+  cases hs : r.isSpecial
+  · rfl
+  · rcases ham with rfl | rfl <;> simp_all [specialRowOk]
+
+end notSpecial
+
 /-- the four stack instructions: their immediate cell is a register-list opcode of two bytes in all -/
 def pshRowOk (r : InstrRow) : Bool :=
   !r.isPseudo && !(r.mnemonic == "EXG" || r.mnemonic == "TFR") &&
@@ -196,31 +233,26 @@ inductive Intends (r : InstrRow) : Asm.Operand → Spec.MC6809.Operand → Prop
 def C01_Statement : Prop :=
   ∀ r ∈ Gen.instructions, r.isPseudo = false → ∀ o x, Intends r o x → Encodes o r x
 
-/-- a size hint that does not widen a byte value -/
-def ByteHint (h : Option Nat) : Prop := h = none ∨ h = some 2
-/-- a size hint under which a value is emitted as two bytes -/
-def WordHint (h : Option Nat) (v : Nat) : Prop := h = some 4 ∨ (h = none ∧ 256 ≤ v)
-
-/-- PROVED region: the sub-relation of `Intends` on which the model is correct. Compared with `Intends`:
-byte fields need `ByteHint`, word fields `WordHint`, negative immediates are limited to the magnitudes whose
-hex length matches, negative 8 / 16-bit offsets are absent (the model miscounts their size), a bracketed
-offset must be non-negative, and a register list must not name S (the model has no bit for it). -/
+/-- PROVED region: the sub-relation of `Intends` on which the model is correct.  Since the operand field is fitted
+to the width the instruction form announces (`fitWidth`), the size hint of a value plays no role any more; the
+region is `Intends` spelt out by sign, minus: a register list that names S (the model has no bit for it, finding
+A10), and the spelling `-0`. -/
 inductive Region (r : InstrRow) : Asm.Operand → Spec.MC6809.Operand → Prop
   | inherent {o : Asm.Operand} {c : Nat} : o.kind = .inherent → r.inh = some c → Region r o .none
   | imm8 {o : Asm.Operand} {c : Nat} {op : String} {v : Nat} {h : Option Nat} {m : Mode} : o.kind = .immediate → r.imm = some c → lookup c = some (op, .imm8) →
-      o.value = .numeric v h m false → v < 256 → ByteHint h → Region r o (.imm 8 v)
+      o.value = .numeric v h m false → v < 256 → Region r o (.imm 8 v)
   | imm8neg {o : Asm.Operand} {c : Nat} {op : String} {i : Nat} {h : Option Nat} {m : Mode} : o.kind = .immediate → r.imm = some c → lookup c = some (op, .imm8) →
-      o.value = .numeric i h m true → 1 ≤ i → i ≤ 128 → ByteHint h → Region r o (.imm 8 (256 - i))
+      o.value = .numeric i h m true → 1 ≤ i → i ≤ 128 → Region r o (.imm 8 (256 - i))
   | imm16 {o : Asm.Operand} {c : Nat} {op : String} {v : Nat} {h : Option Nat} {m : Mode} : o.kind = .immediate → r.imm = some c → lookup c = some (op, .imm16) →
-      o.value = .numeric v h m false → v < 65536 → WordHint h v → Region r o (.imm 16 v)
+      o.value = .numeric v h m false → v < 65536 → Region r o (.imm 16 v)
   | imm16neg {o : Asm.Operand} {c : Nat} {op : String} {i : Nat} {h : Option Nat} {m : Mode} : o.kind = .immediate → r.imm = some c → lookup c = some (op, .imm16) →
-      o.value = .numeric i h m true → 129 ≤ i → i ≤ 32768 → WordHint h i → Region r o (.imm 16 (65536 - i))
-  | direct {o : Asm.Operand} {c : Nat} {v : Nat} {m : Mode} : o.kind = .direct → r.dir = some c → o.value = .numeric v (some 2) m false → v < 256 →
+      o.value = .numeric i h m true → 1 ≤ i → i ≤ 32768 → Region r o (.imm 16 (65536 - i))
+  | direct {o : Asm.Operand} {c : Nat} {v : Nat} {h : Option Nat} {m : Mode} : o.kind = .direct → r.dir = some c → o.value = .numeric v h m false → v < 256 →
       Region r o (.dir v)
   | extended {o : Asm.Operand} {c : Nat} {v : Nat} {h : Option Nat} {m : Mode} : o.kind = .extended → r.ext = some c → o.value = .numeric v h m false → v < 65536 →
-      WordHint h v → Region r o (.ext v)
+      Region r o (.ext v)
   | extInd {o : Asm.Operand} {c : Nat} {v : Nat} {h : Option Nat} {m : Mode} : o.kind = .extIndirect → r.ind = some c → o.value = .numeric v h m false → v < 65536 →
-      WordHint h v → Region r o (.idx (.extInd v))
+      Region r o (.idx (.extInd v))
   | zero {o : Asm.Operand} {c : Nat} {k : Nat} : o.kind = .indexed → r.ind = some c → o.left = .text [] → k < 4 → o.right = some (regName k) →
       Region r o (.idx (.off k 0 false 0))
   | inc1 {o : Asm.Operand} {c : Nat} {k : Nat} : o.kind = .indexed → r.ind = some c → o.left = .text [] → k < 4 →
@@ -246,15 +278,23 @@ inductive Region (r : InstrRow) : Asm.Operand → Spec.MC6809.Operand → Prop
   | off5neg {o : Asm.Operand} {c : Nat} {k : Nat} {i : Nat} {h : Option Nat} {m : Mode} : o.kind = .indexed → r.ind = some c → o.left = .val (.numeric i h m true) →
       1 ≤ i → i ≤ 16 → k < 4 → o.right = some (regName k) → Region r o (.idx (.off k (-(i : Int)) false 5))
   | off8pos {o : Asm.Operand} {c : Nat} {k : Nat} {i : Nat} {h : Option Nat} {m : Mode} : o.kind = .indexed → r.ind = some c → o.left = .val (.numeric i h m false) →
-      16 ≤ i → i ≤ 127 → ByteHint h → k < 4 → o.right = some (regName k) → Region r o (.idx (.off k i false 8))
+      16 ≤ i → i ≤ 127 → k < 4 → o.right = some (regName k) → Region r o (.idx (.off k i false 8))
+  | off8neg {o : Asm.Operand} {c : Nat} {k : Nat} {i : Nat} {h : Option Nat} {m : Mode} : o.kind = .indexed → r.ind = some c → o.left = .val (.numeric i h m true) →
+      17 ≤ i → i ≤ 128 → k < 4 → o.right = some (regName k) → Region r o (.idx (.off k (-(i : Int)) false 8))
   | off16pos {o : Asm.Operand} {c : Nat} {k : Nat} {i : Nat} {h : Option Nat} {m : Mode} : o.kind = .indexed → r.ind = some c → o.left = .val (.numeric i h m false) →
       128 ≤ i → i < 65536 → k < 4 → o.right = some (regName k) →
       Region r o (.idx (.off k (sext i 16) false 16))
+  | off16neg {o : Asm.Operand} {c : Nat} {k : Nat} {i : Nat} {h : Option Nat} {m : Mode} : o.kind = .indexed → r.ind = some c → o.left = .val (.numeric i h m true) →
+      129 ≤ i → i ≤ 32768 → k < 4 → o.right = some (regName k) → Region r o (.idx (.off k (-(i : Int)) false 16))
   | indOff8pos {o : Asm.Operand} {c : Nat} {k : Nat} {i : Nat} {h : Option Nat} {m : Mode} : Bracketed o → r.ind = some c → o.left = .val (.numeric i h m false) →
-      1 ≤ i → i ≤ 127 → ByteHint h → k < 4 → o.right = some (regName k) → Region r o (.idx (.off k i true 8))
+      1 ≤ i → i ≤ 127 → k < 4 → o.right = some (regName k) → Region r o (.idx (.off k i true 8))
+  | indOff8neg {o : Asm.Operand} {c : Nat} {k : Nat} {i : Nat} {h : Option Nat} {m : Mode} : Bracketed o → r.ind = some c → o.left = .val (.numeric i h m true) →
+      1 ≤ i → i ≤ 128 → k < 4 → o.right = some (regName k) → Region r o (.idx (.off k (-(i : Int)) true 8))
   | indOff16pos {o : Asm.Operand} {c : Nat} {k : Nat} {i : Nat} {h : Option Nat} {m : Mode} : Bracketed o → r.ind = some c → o.left = .val (.numeric i h m false) →
       128 ≤ i → i < 65536 → k < 4 → o.right = some (regName k) →
       Region r o (.idx (.off k (sext i 16) true 16))
+  | indOff16neg {o : Asm.Operand} {c : Nat} {k : Nat} {i : Nat} {h : Option Nat} {m : Mode} : Bracketed o → r.ind = some c → o.left = .val (.numeric i h m true) →
+      129 ≤ i → i ≤ 32768 → k < 4 → o.right = some (regName k) → Region r o (.idx (.off k (-(i : Int)) true 16))
   | pair {o : Asm.Operand} {a : String} {b : String} : (r.mnemonic = "TFR" ∨ r.mnemonic = "EXG") → o.kind = .special → a ∈ Gen.registers →
       b ∈ Gen.registers → dsPairOk a b = true → o.text = a.toList ++ ',' :: b.toList →
       Region r o (.pair (dsPairCode a) (dsPairCode b))
@@ -271,41 +311,46 @@ include hr hp
 theorem C01_inherent {o : Asm.Operand} {c : Nat} (hk : o.kind = .inherent) (hc : r.inh = some c) : Encodes o r .none :=
   enc_inherent hk hc (cell_inh hr hp hc).1 (cell_inh hr hp hc).2
 
+/-- 8-bit immediate: every value 0..255, whatever its spelling / size hint -/
 theorem C01_imm8 {o : Asm.Operand} {c v : Nat} {op : String} {h : Option Nat} {m : Mode}
     (hk : o.kind = .immediate) (hc : r.imm = some c) (hl : lookup c = some (op, .imm8))
-    (hv : o.value = .numeric v h m false) (hv8 : v < 256) (hh : ByteHint h) : Encodes o r (.imm 8 v) :=
-  enc_imm8 hk hc (cell_imm hr hp hc hl).1 (cell_imm hr hp hc hl).2 hv hv8 hh
+    (hv : o.value = .numeric v h m false) (hv8 : v < 256) : Encodes o r (.imm 8 v) :=
+  enc_imm8 hp (notSpecial_of_imm hr hc hl (Or.inl rfl)) hk hc (cell_imm hr hp hc hl).1 (cell_imm hr hp hc hl).2 hv hv8
 
+/-- 8-bit immediate: every value −128..−1 -/
 theorem C01_imm8_neg {o : Asm.Operand} {c i : Nat} {op : String} {h : Option Nat} {m : Mode}
     (hk : o.kind = .immediate) (hc : r.imm = some c) (hl : lookup c = some (op, .imm8))
-    (hv : o.value = .numeric i h m true) (h1 : 1 ≤ i) (h2 : i ≤ 128) (hh : ByteHint h) :
+    (hv : o.value = .numeric i h m true) (h1 : 1 ≤ i) (h2 : i ≤ 128) :
     Encodes o r (.imm 8 (256 - i)) :=
-  enc_imm8_neg hk hc (cell_imm hr hp hc hl).1 (cell_imm hr hp hc hl).2 hv h1 h2 hh
+  enc_imm8_neg hp (notSpecial_of_imm hr hc hl (Or.inl rfl)) hk hc (cell_imm hr hp hc hl).1 (cell_imm hr hp hc hl).2 hv h1 h2
 
+/-- 16-bit immediate: every value 0..65535, whatever its size hint (`LDX #$10` is `8E 00 10`) -/
 theorem C01_imm16 {o : Asm.Operand} {c v : Nat} {op : String} {h : Option Nat} {m : Mode}
     (hk : o.kind = .immediate) (hc : r.imm = some c) (hl : lookup c = some (op, .imm16))
-    (hv : o.value = .numeric v h m false) (hv16 : v < 65536) (hh : WordHint h v) : Encodes o r (.imm 16 v) :=
-  enc_imm16 hk hc (cell_imm hr hp hc hl).1 (cell_imm hr hp hc hl).2 hv hv16 hh
+    (hv : o.value = .numeric v h m false) (hv16 : v < 65536) : Encodes o r (.imm 16 v) :=
+  enc_imm16 hp (notSpecial_of_imm hr hc hl (Or.inr rfl)) hk hc (cell_imm hr hp hc hl).1 (cell_imm hr hp hc hl).2 hv hv16
 
+/-- 16-bit immediate: every value −32768..−1 (`LDX #-1` is `8E FF FF`) -/
 theorem C01_imm16_neg {o : Asm.Operand} {c i : Nat} {op : String} {h : Option Nat} {m : Mode}
     (hk : o.kind = .immediate) (hc : r.imm = some c) (hl : lookup c = some (op, .imm16))
-    (hv : o.value = .numeric i h m true) (h1 : 129 ≤ i) (h2 : i ≤ 32768) (hh : WordHint h i) :
+    (hv : o.value = .numeric i h m true) (h1 : 1 ≤ i) (h2 : i ≤ 32768) :
     Encodes o r (.imm 16 (65536 - i)) :=
-  enc_imm16_neg hk hc (cell_imm hr hp hc hl).1 (cell_imm hr hp hc hl).2 hv h1 h2 hh
+  enc_imm16_neg hp (notSpecial_of_imm hr hc hl (Or.inr rfl)) hk hc (cell_imm hr hp hc hl).1 (cell_imm hr hp hc hl).2 hv h1 h2
 
-theorem C01_direct {o : Asm.Operand} {c v : Nat} {m : Mode} (hk : o.kind = .direct) (hc : r.dir = some c)
-    (hv : o.value = .numeric v (some 2) m false) (hv8 : v < 256) : Encodes o r (.dir v) :=
-  enc_direct hk hc (cell_dir hr hp hc).1 (cell_dir hr hp hc).2 hv hv8
+theorem C01_direct {o : Asm.Operand} {c v : Nat} {h : Option Nat} {m : Mode} (hk : o.kind = .direct) (hc : r.dir = some c)
+    (hv : o.value = .numeric v h m false) (hv8 : v < 256) : Encodes o r (.dir v) :=
+  enc_direct hp (notSpecial_of_dir hr hc) hk hc (cell_dir hr hp hc).1 (cell_dir hr hp hc).2 hv hv8
 
 theorem C01_extended {o : Asm.Operand} {c v : Nat} {h : Option Nat} {m : Mode} (hk : o.kind = .extended)
-    (hc : r.ext = some c) (hv : o.value = .numeric v h m false) (hv16 : v < 65536) (hh : WordHint h v) :
+    (hc : r.ext = some c) (hv : o.value = .numeric v h m false) (hv16 : v < 65536) :
     Encodes o r (.ext v) :=
-  enc_extended hk hc (cell_ext hr hp hc).1 (cell_ext hr hp hc).2 hv hv16 hh
+  enc_extended hp (notSpecial_of_ext hr hc) hk hc (cell_ext hr hp hc).1 (cell_ext hr hp hc).2 hv hv16
 
+/-- `[address]`: every address 0..65535 whatever its size hint, always two address bytes -/
 theorem C01_extIndirect {o : Asm.Operand} {c v : Nat} {h : Option Nat} {m : Mode} (hk : o.kind = .extIndirect)
-    (hc : r.ind = some c) (hv : o.value = .numeric v h m false) (hv16 : v < 65536) (hh : WordHint h v) :
+    (hc : r.ind = some c) (hv : o.value = .numeric v h m false) (hv16 : v < 65536) :
     Encodes o r (.idx (.extInd v)) :=
-  enc_extInd hk hc (cell_ind hr hp hc).1 (cell_ind hr hp hc).2 hv hv16 hh
+  enc_extInd hp (notSpecial_of_ind hr hc) hk hc (cell_ind hr hp hc).1 (cell_ind hr hp hc).2 hv hv16
 
 /-- `,R  ,R+  ,R++  ,-R  ,--R` for R = X, Y, U, S (k = 0, 1, 2, 3) -/
 theorem C01_indexed_noOffset {o : Asm.Operand} {c k : Nat} (hk : o.kind = .indexed) (hc : r.ind = some c)
@@ -353,28 +398,38 @@ theorem C01_accumulator {o : Asm.Operand} {c k a : Nat} {l : Str} (hc : r.ind = 
     · exact this.2.1 hl
     · exact this.2.2 hl
 
-/-- `n,R`: 5-bit offsets need NO additional byte; 8-bit and 16-bit non-negative offsets -/
+/-- `n,R` and `-n,R`: 5-bit offsets need NO additional byte; 8-bit offsets one, 16-bit offsets two, of either
+sign and whatever the size hint of the literal (`LDD 100,X` is `EC 88 64`, `LDA -17,X` is `A6 88 EF`) -/
 theorem C01_offset {o : Asm.Operand} {c k i : Nat} {h : Option Nat} {m : Mode} (hk : o.kind = .indexed)
     (hc : r.ind = some c) (hk4 : k < 4) (hrr : o.right = some (regName k)) :
     (o.left = .val (.numeric i h m false) → 1 ≤ i → i ≤ 15 → Encodes o r (.idx (.off k i false 5))) ∧
     (o.left = .val (.numeric i h m true) → 1 ≤ i → i ≤ 16 → Encodes o r (.idx (.off k (-(i : Int)) false 5))) ∧
-    (o.left = .val (.numeric i h m false) → 16 ≤ i → i ≤ 127 → ByteHint h → Encodes o r (.idx (.off k i false 8))) ∧
-    (o.left = .val (.numeric i h m false) → 128 ≤ i → i < 65536 → Encodes o r (.idx (.off k (sext i 16) false 16))) :=
+    (o.left = .val (.numeric i h m false) → 16 ≤ i → i ≤ 127 → Encodes o r (.idx (.off k i false 8))) ∧
+    (o.left = .val (.numeric i h m true) → 17 ≤ i → i ≤ 128 → Encodes o r (.idx (.off k (-(i : Int)) false 8))) ∧
+    (o.left = .val (.numeric i h m false) → 128 ≤ i → i < 65536 → Encodes o r (.idx (.off k (sext i 16) false 16))) ∧
+    (o.left = .val (.numeric i h m true) → 129 ≤ i → i ≤ 32768 → Encodes o r (.idx (.off k (-(i : Int)) false 16))) :=
   have hl := cell_ind hr hp hc
+  have hsp := notSpecial_of_ind hr hc
   ⟨fun hle h1 h2 => enc_off_pos5 hk hc hl.1 hl.2 hle h1 h2 hk4 hrr,
    fun hle h1 h2 => enc_off_neg5 hk hc hl.1 hl.2 hle h1 h2 hk4 hrr,
-   fun hle h1 h2 hh => enc_off_pos8 hk hc hl.1 hl.2 hle h1 h2 hh hk4 hrr,
-   fun hle h1 h2 => enc_off_pos16 hk hc hl.1 hl.2 hle h1 h2 hk4 hrr⟩
+   fun hle h1 h2 => enc_off_pos8 hp hsp hk hc hl.1 hl.2 hle h1 h2 hk4 hrr,
+   fun hle h1 h2 => enc_off_neg8 hp hsp hk hc hl.1 hl.2 hle h1 h2 hk4 hrr,
+   fun hle h1 h2 => enc_off_pos16 hp hsp hk hc hl.1 hl.2 hle h1 h2 hk4 hrr,
+   fun hle h1 h2 => enc_off_neg16 hp hsp hk hc hl.1 hl.2 hle h1 h2 hk4 hrr⟩
 
-/-- `[n,R]`: 8-bit and 16-bit non-negative offsets (there is no 5-bit indirect form) -/
+/-- `[n,R]` and `[-n,R]`: 8-bit and 16-bit offsets of either sign (there is no 5-bit indirect form) -/
 theorem C01_indirect_offset {o : Asm.Operand} {c k i : Nat} {h : Option Nat} {m : Mode} (hb : Bracketed o)
-    (hc : r.ind = some c) (hk4 : k < 4) (hrr : o.right = some (regName k))
-    (hle : o.left = .val (.numeric i h m false)) :
-    (1 ≤ i → i ≤ 127 → ByteHint h → Encodes o r (.idx (.off k i true 8))) ∧
-    (128 ≤ i → i < 65536 → Encodes o r (.idx (.off k (sext i 16) true 16))) :=
+    (hc : r.ind = some c) (hk4 : k < 4) (hrr : o.right = some (regName k)) :
+    (o.left = .val (.numeric i h m false) → 1 ≤ i → i ≤ 127 → Encodes o r (.idx (.off k i true 8))) ∧
+    (o.left = .val (.numeric i h m true) → 1 ≤ i → i ≤ 128 → Encodes o r (.idx (.off k (-(i : Int)) true 8))) ∧
+    (o.left = .val (.numeric i h m false) → 128 ≤ i → i < 65536 → Encodes o r (.idx (.off k (sext i 16) true 16))) ∧
+    (o.left = .val (.numeric i h m true) → 129 ≤ i → i ≤ 32768 → Encodes o r (.idx (.off k (-(i : Int)) true 16))) :=
   have hl := cell_ind hr hp hc
-  ⟨fun h1 h2 hh => enc_ind_pos8 hb.1 hc hl.1 hl.2 hb.2.1 hb.2.2 hle h1 h2 hh hk4 hrr,
-   fun h1 h2 => enc_ind_pos16 hb.1 hc hl.1 hl.2 hb.2.1 hb.2.2 hle h1 h2 hk4 hrr⟩
+  have hsp := notSpecial_of_ind hr hc
+  ⟨fun hle h1 h2 => enc_ind_pos8 hp hsp hb.1 hc hl.1 hl.2 hb.2.1 hb.2.2 hle h1 h2 hk4 hrr,
+   fun hle h1 h2 => enc_ind_neg8 hp hsp hb.1 hc hl.1 hl.2 hb.2.1 hb.2.2 hle h1 h2 hk4 hrr,
+   fun hle h1 h2 => enc_ind_pos16 hp hsp hb.1 hc hl.1 hl.2 hb.2.1 hb.2.2 hle h1 h2 hk4 hrr,
+   fun hle h1 h2 => enc_ind_neg16 hp hsp hb.1 hc hl.1 hl.2 hb.2.1 hb.2.2 hle h1 h2 hk4 hrr⟩
 
 omit hp in
 /-- TFR / EXG, all 100 register pairs: accepted exactly when the datasheet accepts the pair (same width),
@@ -420,13 +475,13 @@ theorem C01_push_pull {o : Asm.Operand} {regs : List Str} (hm : isStackMn r.mnem
 theorem C01_partial {o : Asm.Operand} {x : Spec.MC6809.Operand} (h : Region r o x) : Encodes o r x := by
   cases h with
   | inherent hk hc => exact C01_inherent hr hp hk hc
-  | imm8 hk hc hl hv h8 hh => exact C01_imm8 hr hp hk hc hl hv h8 hh
-  | imm8neg hk hc hl hv h1 h2 hh => exact C01_imm8_neg hr hp hk hc hl hv h1 h2 hh
-  | imm16 hk hc hl hv h16 hh => exact C01_imm16 hr hp hk hc hl hv h16 hh
-  | imm16neg hk hc hl hv h1 h2 hh => exact C01_imm16_neg hr hp hk hc hl hv h1 h2 hh
+  | imm8 hk hc hl hv h8 => exact C01_imm8 hr hp hk hc hl hv h8
+  | imm8neg hk hc hl hv h1 h2 => exact C01_imm8_neg hr hp hk hc hl hv h1 h2
+  | imm16 hk hc hl hv h16 => exact C01_imm16 hr hp hk hc hl hv h16
+  | imm16neg hk hc hl hv h1 h2 => exact C01_imm16_neg hr hp hk hc hl hv h1 h2
   | direct hk hc hv h8 => exact C01_direct hr hp hk hc hv h8
-  | extended hk hc hv h16 hh => exact C01_extended hr hp hk hc hv h16 hh
-  | extInd hk hc hv h16 hh => exact C01_extIndirect hr hp hk hc hv h16 hh
+  | extended hk hc hv h16 => exact C01_extended hr hp hk hc hv h16
+  | extInd hk hc hv h16 => exact C01_extIndirect hr hp hk hc hv h16
   | zero hk hc hle hk4 hrr => exact (C01_indexed_noOffset hr hp hk hc hle hk4).1 hrr
   | inc1 hk hc hle hk4 hrr => exact (C01_indexed_noOffset hr hp hk hc hle hk4).2.1 hrr
   | inc2 hk hc hle hk4 hrr => exact (C01_indexed_noOffset hr hp hk hc hle hk4).2.2.1 hrr
@@ -439,14 +494,38 @@ theorem C01_partial {o : Asm.Operand} {x : Spec.MC6809.Operand} (h : Region r o 
   | indAcc hb hc hla hl hk4 hrr => exact (C01_accumulator hr hp hc hla hl hk4 hrr).2 hb
   | off5pos hk hc hle h1 h2 hk4 hrr => exact (C01_offset hr hp hk hc hk4 hrr).1 hle h1 h2
   | off5neg hk hc hle h1 h2 hk4 hrr => exact (C01_offset hr hp hk hc hk4 hrr).2.1 hle h1 h2
-  | off8pos hk hc hle h1 h2 hh hk4 hrr => exact (C01_offset hr hp hk hc hk4 hrr).2.2.1 hle h1 h2 hh
-  | off16pos hk hc hle h1 h2 hk4 hrr => exact (C01_offset hr hp hk hc hk4 hrr).2.2.2 hle h1 h2
-  | indOff8pos hb hc hle h1 h2 hh hk4 hrr => exact (C01_indirect_offset hr hp hb hc hk4 hrr hle).1 h1 h2 hh
-  | indOff16pos hb hc hle h1 h2 hk4 hrr => exact (C01_indirect_offset hr hp hb hc hk4 hrr hle).2 h1 h2
+  | off8pos hk hc hle h1 h2 hk4 hrr => exact (C01_offset hr hp hk hc hk4 hrr).2.2.1 hle h1 h2
+  | off8neg hk hc hle h1 h2 hk4 hrr => exact (C01_offset hr hp hk hc hk4 hrr).2.2.2.1 hle h1 h2
+  | off16pos hk hc hle h1 h2 hk4 hrr => exact (C01_offset hr hp hk hc hk4 hrr).2.2.2.2.1 hle h1 h2
+  | off16neg hk hc hle h1 h2 hk4 hrr => exact (C01_offset hr hp hk hc hk4 hrr).2.2.2.2.2 hle h1 h2
+  | indOff8pos hb hc hle h1 h2 hk4 hrr => exact (C01_indirect_offset hr hp hb hc hk4 hrr).1 hle h1 h2
+  | indOff8neg hb hc hle h1 h2 hk4 hrr => exact (C01_indirect_offset hr hp hb hc hk4 hrr).2.1 hle h1 h2
+  | indOff16pos hb hc hle h1 h2 hk4 hrr => exact (C01_indirect_offset hr hp hb hc hk4 hrr).2.2.1 hle h1 h2
+  | indOff16neg hb hc hle h1 h2 hk4 hrr => exact (C01_indirect_offset hr hp hb hc hk4 hrr).2.2.2 hle h1 h2
   | pair hm hk ha hb hok ht => exact (C01_tfr_exg hr hm hk ha hb ht).1 hok
   | list hm hk hne hreg ht => exact C01_push_pull hr hm hk hne hreg ht
 
+/-- **C01 (ii) on what `fixAll` really does**: for a label-free operand of the region, the step of `fixAll`
+(`fix_addresses`, then `fit_operand_width`) on ANY statement carrying row, operand and package, at any position of
+any program, yields the bytes the datasheet decoder reads back as the intended operand -/
+theorem C01_partial_emitted {o : Asm.Operand} {x : Spec.MC6809.Operand} (h : Region r o x) (hlf : LabelFree o) :
+    ∃ pkg bytes, translateOperand o r = .ok pkg ∧
+      (∀ (ss : List Stmt) (i : Nat) (s : Stmt), s.row = r → s.operand = o → s.pkg = pkg →
+        ∃ s', (match fixOne ss i s with | .ok s1 => fitWidth s1 | o => o) = .ok s' ∧ stmtBytes s' = some bytes) ∧
+      bytes.length = pkg.size ∧ decode bytes = some (⟨opOf r.mnemonic, x⟩, bytes.length) :=
+  (C01_partial hr hp h).through_fix hlf
+
 end regions
+
+/-- an operand whose value is a number is label-free (unless it is a branch operand) -/
+theorem labelFree_of_numeric {o : Asm.Operand} {i : Nat} {h : Option Nat} {m : Mode} {n : Bool}
+    (hk : o.kind ≠ .relative) (hv : o.value = .numeric i h m n) : LabelFree o :=
+  ⟨hk, by rw [hv]; simp, by rw [hv]; rfl, by rw [hv]; rfl⟩
+
+/-- an operand whose value is the `left,right` pair the parser builds for indexed operands is label-free -/
+theorem labelFree_of_leftRight {o : Asm.Operand} {l rr : Str} {m : Mode}
+    (hk : o.kind ≠ .relative) (hv : o.value = .leftRight l rr m) : LabelFree o :=
+  ⟨hk, by rw [hv]; simp, by rw [hv]; rfl, by rw [hv]; rfl⟩
 
 /-! ### the proved region is part of the intended relation (nothing was re-interpreted) -/
 
@@ -467,21 +546,21 @@ theorem region_sub_intends {r : InstrRow} {o : Asm.Operand} {x : Spec.MC6809.Ope
     Intends r o x := by
   cases h with
   | inherent hk hc => exact .inherent hk hc
-  | imm8 hk hc hl hv h8 hh =>
+  | imm8 hk hc hl hv h8 =>
     have := Intends.imm8 (r := r) hk hc hl hv (by simp [signedVal] <;> omega) (by simp [signedVal] <;> omega)
     rwa [twos8_pos h8] at this
-  | imm8neg hk hc hl hv h1 h2 hh =>
+  | imm8neg hk hc hl hv h1 h2 =>
     have := Intends.imm8 (r := r) hk hc hl hv (by simp [signedVal] <;> omega) (by simp [signedVal] <;> omega)
     rwa [twos8_neg h1 h2] at this
-  | imm16 hk hc hl hv h16 hh =>
+  | imm16 hk hc hl hv h16 =>
     have := Intends.imm16 (r := r) hk hc hl hv (by simp [signedVal] <;> omega) (by simp [signedVal] <;> omega)
     rwa [twos16_pos h16] at this
-  | imm16neg hk hc hl hv h1 h2 hh =>
+  | imm16neg hk hc hl hv h1 h2 =>
     have := Intends.imm16 (r := r) hk hc hl hv (by simp [signedVal] <;> omega) (by simp [signedVal] <;> omega)
-    rwa [twos16_neg (by omega) h2] at this
+    rwa [twos16_neg h1 h2] at this
   | direct hk hc hv h8 => exact .direct hk hc hv h8
-  | extended hk hc hv h16 hh => exact .extended hk hc hv h16
-  | extInd hk hc hv h16 hh => exact .extInd hk hc hv h16
+  | extended hk hc hv h16 => exact .extended hk hc hv h16
+  | extInd hk hc hv h16 => exact .extInd hk hc hv h16
   | zero hk hc hle hk4 hrr => exact .zero hk hc hle hk4 hrr
   | inc1 hk hc hle hk4 hrr => exact .inc1 hk hc hle hk4 hrr
   | inc2 hk hc hle hk4 hrr => exact .inc2 hk hc hle hk4 hrr
@@ -498,7 +577,11 @@ theorem region_sub_intends {r : InstrRow} {o : Asm.Operand} {x : Spec.MC6809.Ope
   | off5neg hk hc hle h1 h2 hk4 hrr =>
     have := Intends.off5 (r := r) hk hc hle (by omega) hk4 hrr (by simp [signedVal] <;> omega) (by simp [signedVal] <;> omega)
     simpa [signedVal] using this
-  | off8pos hk hc hle h1 h2 hh hk4 hrr =>
+  | off8pos hk hc hle h1 h2 hk4 hrr =>
+    have := Intends.off8 (r := r) hk hc hle hk4 hrr (by simp [signedVal] <;> omega) (by simp [signedVal] <;> omega)
+      (by simp [signedVal] <;> omega)
+    simpa [signedVal] using this
+  | off8neg hk hc hle h1 h2 hk4 hrr =>
     have := Intends.off8 (r := r) hk hc hle hk4 hrr (by simp [signedVal] <;> omega) (by simp [signedVal] <;> omega)
       (by simp [signedVal] <;> omega)
     simpa [signedVal] using this
@@ -506,91 +589,193 @@ theorem region_sub_intends {r : InstrRow} {o : Asm.Operand} {x : Spec.MC6809.Ope
     have := Intends.off16 (r := r) hk hc hle hk4 hrr (by simp [signedVal] <;> omega) (by simp [signedVal] <;> omega)
       (by simp [signedVal] <;> omega)
     rwa [twos16_pos h2] at this
-  | indOff8pos hb hc hle h1 h2 hh hk4 hrr =>
+  | off16neg hk hc hle h1 h2 hk4 hrr =>
+    have := Intends.off16 (r := r) hk hc hle hk4 hrr (by simp [signedVal] <;> omega) (by simp [signedVal] <;> omega)
+      (by simp [signedVal] <;> omega)
+    rwa [twos16_neg (by omega) h2, sext16_neg (by omega) h2] at this
+  | indOff8pos hb hc hle h1 h2 hk4 hrr =>
+    have := Intends.indOff8 (r := r) hb hc hle (by omega) hk4 hrr (by simp [signedVal] <;> omega) (by simp [signedVal] <;> omega)
+    simpa [signedVal] using this
+  | indOff8neg hb hc hle h1 h2 hk4 hrr =>
     have := Intends.indOff8 (r := r) hb hc hle (by omega) hk4 hrr (by simp [signedVal] <;> omega) (by simp [signedVal] <;> omega)
     simpa [signedVal] using this
   | indOff16pos hb hc hle h1 h2 hk4 hrr =>
     have := Intends.indOff16 (r := r) hb hc hle hk4 hrr (by simp [signedVal] <;> omega) (by simp [signedVal] <;> omega)
       (by simp [signedVal] <;> omega)
     rwa [twos16_pos h2] at this
+  | indOff16neg hb hc hle h1 h2 hk4 hrr =>
+    have := Intends.indOff16 (r := r) hb hc hle hk4 hrr (by simp [signedVal] <;> omega) (by simp [signedVal] <;> omega)
+      (by simp [signedVal] <;> omega)
+    rwa [twos16_neg (by omega) h2, sext16_neg (by omega) h2] at this
   | pair hm hk ha hb hok ht => exact .pair hm hk ha hb hok ht
   | list hm hk hne hreg ht => exact .list hm hk hne (fun x hx => (hreg x hx).1) ht
 
-/-! ## findings: where the model leaves the intended relation (kernel-checked witnesses)
+/-! ### the other inclusion: the intended relation is proved EXCEPT for register lists that name S -/
 
-`asmOne mn operand` runs `createOperand`, `resolveOperand` (empty symbol table), `translateOperand` and the
-byte emission of one source statement and returns `(pkg.size, bytes)`. -/
+/-- the restriction that separates `Region` from `Intends`: a PSHx / PULx register list does not name S -/
+def NoSList (r : InstrRow) (o : Asm.Operand) : Prop :=
+  o.kind = .special → isStackMn r.mnemonic = true → ∀ regs : List Str, o.text = joinWith ',' regs → str "S" ∉ regs
 
-/-- `LDD 100,X`: on an `is_16_bit` row the offset literal carries size hint 4, so the "8-bit" offset is
-emitted as two bytes: 4 bytes for an announced size of 3 -/
-theorem C01_finding_16bit_row_offset : asmOne "LDD" "100,X" = some (3, [0xEC, 0x88, 0x00, 0x64]) := by
+theorem twos8_field {i : Nat} {neg : Bool} (h1 : -128 ≤ signedVal i neg) (h2 : signedVal i neg ≤ 255) :
+    twos (signedVal i neg) 8 = byteField i neg ∧ fitsByte i neg = true := by
+  cases neg <;> simp only [twos, signedVal, byteField, fitsByte, if_true, Bool.false_eq_true, if_false,
+    decide_eq_true_eq] at h1 h2 ⊢ <;> omega
+
+theorem twos16_field {i : Nat} {neg : Bool} (h1 : -32768 ≤ signedVal i neg) (h2 : signedVal i neg ≤ 65535) :
+    twos (signedVal i neg) 16 = wordField i neg ∧ fitsWord i neg = true := by
+  cases neg <;> simp only [twos, signedVal, wordField, fitsWord, if_true, Bool.false_eq_true, if_false,
+    decide_eq_true_eq] at h1 h2 ⊢ <;> omega
+
+/-- **C01 (ii) for the whole intended relation, except register lists that name S** (finding A10): every operand of
+every class, every value that fits its field, whatever the spelling, is encoded as the datasheet operand it
+stands for -/
+theorem C01_full_except_S {r : InstrRow} (hr : r ∈ Gen.instructions) (hp : r.isPseudo = false) {o : Asm.Operand}
+    {x : Spec.MC6809.Operand} (h : Intends r o x) (hS : NoSList r o) : Encodes o r x := by
+  cases h with
+  | inherent hk hc => exact C01_inherent hr hp hk hc
+  | imm8 hk hc hl hv h1 h2 =>
+    obtain ⟨e, hf⟩ := twos8_field h1 h2
+    rw [e]
+    exact enc_imm8_field hp (notSpecial_of_imm hr hc hl (Or.inl rfl)) hk hc (cell_imm hr hp hc hl).1
+      (cell_imm hr hp hc hl).2 hv hf
+  | imm16 hk hc hl hv h1 h2 =>
+    obtain ⟨e, hf⟩ := twos16_field h1 h2
+    rw [e]
+    exact enc_imm16_field hp (notSpecial_of_imm hr hc hl (Or.inr rfl)) hk hc (cell_imm hr hp hc hl).1
+      (cell_imm hr hp hc hl).2 hv hf
+  | direct hk hc hv h8 => exact C01_direct hr hp hk hc hv h8
+  | extended hk hc hv h16 => exact C01_extended hr hp hk hc hv h16
+  | extInd hk hc hv h16 => exact C01_extIndirect hr hp hk hc hv h16
+  | zero hk hc hle hk4 hrr => exact (C01_indexed_noOffset hr hp hk hc hle hk4).1 hrr
+  | inc1 hk hc hle hk4 hrr => exact (C01_indexed_noOffset hr hp hk hc hle hk4).2.1 hrr
+  | inc2 hk hc hle hk4 hrr => exact (C01_indexed_noOffset hr hp hk hc hle hk4).2.2.1 hrr
+  | dec1 hk hc hle hk4 hrr => exact (C01_indexed_noOffset hr hp hk hc hle hk4).2.2.2.1 hrr
+  | dec2 hk hc hle hk4 hrr => exact (C01_indexed_noOffset hr hp hk hc hle hk4).2.2.2.2 hrr
+  | indZero hb hc hle hk4 hrr => exact (C01_indirect_noOffset hr hp hb hc hle hk4).1 hrr
+  | indInc2 hb hc hle hk4 hrr => exact (C01_indirect_noOffset hr hp hb hc hle hk4).2.1 hrr
+  | indDec2 hb hc hle hk4 hrr => exact (C01_indirect_noOffset hr hp hb hc hle hk4).2.2.1 hrr
+  | acc hk hc hla hl hk4 hrr => exact (C01_accumulator hr hp hc hla hl hk4 hrr).1 hk
+  | indAcc hb hc hla hl hk4 hrr => exact (C01_accumulator hr hp hc hla hl hk4 hrr).2 hb
+  | off5 hk hc hle hi hk4 hrr h1 h2 =>
+    rename_i c k i hh m neg
+    cases neg
+    · simp only [signedVal, Bool.false_eq_true, if_false] at h1 h2 ⊢
+      exact (C01_offset hr hp hk hc hk4 hrr).1 hle (by omega) (by omega)
+    · simp only [signedVal, if_true] at h1 h2 ⊢
+      exact (C01_offset hr hp hk hc hk4 hrr).2.1 hle (by omega) (by omega)
+  | off8 hk hc hle hk4 hrr hn h1 h2 =>
+    rename_i c k i hh m neg
+    cases neg
+    · simp only [signedVal, Bool.false_eq_true, if_false] at hn h1 h2 ⊢
+      exact (C01_offset hr hp hk hc hk4 hrr).2.2.1 hle (by omega) (by omega)
+    · simp only [signedVal, if_true] at hn h1 h2 ⊢
+      exact (C01_offset hr hp hk hc hk4 hrr).2.2.2.1 hle (by omega) (by omega)
+  | off16 hk hc hle hk4 hrr hn h1 h2 =>
+    rename_i c k i hh m neg
+    cases neg
+    · have hi : i < 65536 := by simp only [signedVal, Bool.false_eq_true, if_false] at h2; omega
+      rw [twos16_pos hi]
+      simp only [signedVal, Bool.false_eq_true, if_false] at hn
+      exact (C01_offset hr hp hk hc hk4 hrr).2.2.2.2.1 hle (by omega) hi
+    · simp only [signedVal, if_true] at hn h1
+      rw [twos16_neg (by omega) (by omega), sext16_neg (by omega) (by omega)]
+      exact (C01_offset hr hp hk hc hk4 hrr).2.2.2.2.2 hle (by omega) (by omega)
+  | indOff8 hb hc hle hi hk4 hrr h1 h2 =>
+    rename_i c k i hh m neg
+    cases neg
+    · simp only [signedVal, Bool.false_eq_true, if_false] at h1 h2 ⊢
+      exact (C01_indirect_offset hr hp hb hc hk4 hrr).1 hle (by omega) (by omega)
+    · simp only [signedVal, if_true] at h1 h2 ⊢
+      exact (C01_indirect_offset hr hp hb hc hk4 hrr).2.1 hle (by omega) (by omega)
+  | indOff16 hb hc hle hk4 hrr hn h1 h2 =>
+    rename_i c k i hh m neg
+    cases neg
+    · have hi : i < 65536 := by simp only [signedVal, Bool.false_eq_true, if_false] at h2; omega
+      rw [twos16_pos hi]
+      simp only [signedVal, Bool.false_eq_true, if_false] at hn
+      exact (C01_indirect_offset hr hp hb hc hk4 hrr).2.2.1 hle (by omega) hi
+    · simp only [signedVal, if_true] at hn h1
+      rw [twos16_neg (by omega) (by omega), sext16_neg (by omega) (by omega)]
+      exact (C01_indirect_offset hr hp hb hc hk4 hrr).2.2.2 hle (by omega) (by omega)
+  | pair hm hk ha hb hok ht => exact (C01_tfr_exg hr hm hk ha hb ht).1 hok
+  | list hm hk hne hreg ht =>
+    rename_i regs
+    have hs := hS hk hm regs ht
+    exact C01_push_pull hr hm hk hne (fun x hx => ⟨hreg x hx, fun e => hs (e ▸ hx)⟩) ht
+
+/-! ## repaired findings (kernel-checked witnesses on the same source statements)
+
+`asmOne mn operand` runs `createOperand`, `resolveOperand` (empty symbol table), `translateOperand`, `fitWidth`
+and the byte emission of one source statement and returns `(pkg.size, bytes)`; `none` = rejected. -/
+
+/-- REPAIRED (A3; formerly `C01_finding_16bit_row_offset`: 4 bytes for size 3): `LDD 100,X` on an `is_16_bit` row,
+the offset is fitted to the one byte the 8-bit form has -/
+theorem C01_finding_16bit_row_offset_fixed : asmOne "LDD" "100,X" = some (3, [0xEC, 0x88, 0x64]) := by
   decide +kernel
 
-/-- `LDA -17,X`: a negative 8-bit offset is emitted (3 bytes) but `size` stays 2 -/
-theorem C01_finding_neg8_offset : asmOne "LDA" "-17,X" = some (2, [0xA6, 0x88, 0xEF]) := by decide +kernel
+/-- REPAIRED (A4; formerly `C01_finding_neg8_offset`: size 2): `LDA -17,X` announces the 3 bytes it emits -/
+theorem C01_finding_neg8_offset_fixed : asmOne "LDA" "-17,X" = some (3, [0xA6, 0x88, 0xEF]) := by decide +kernel
 
-/-- `LDA -200,X`: a negative 16-bit offset is emitted (4 bytes) but `size` stays 2 -/
-theorem C01_finding_neg16_offset : asmOne "LDA" "-200,X" = some (2, [0xA6, 0x89, 0xFF, 0x38]) := by decide +kernel
+/-- REPAIRED (A4; formerly `C01_finding_neg16_offset`: size 2): `LDA -200,X` announces 4 bytes -/
+theorem C01_finding_neg16_offset_fixed : asmOne "LDA" "-200,X" = some (4, [0xA6, 0x89, 0xFF, 0x38]) := by decide +kernel
 
-/-- `LDA [-5,X]`: the same miscount inside brackets -/
-theorem C01_finding_indirect_neg_offset : asmOne "LDA" "[-5,X]" = some (2, [0xA6, 0x98, 0xFB]) := by decide +kernel
+/-- REPAIRED (A4; formerly `C01_finding_indirect_neg_offset`: size 2): `LDA [-5,X]` announces 3 bytes -/
+theorem C01_finding_indirect_neg_offset_fixed : asmOne "LDA" "[-5,X]" = some (3, [0xA6, 0x98, 0xFB]) := by decide +kernel
 
-/-- `LDA #256`: an immediate that does not fit the 8-bit instruction is accepted; 3 bytes for size 2 -/
-theorem C01_finding_imm8_256 : asmOne "LDA" "#256" = some (2, [0x86, 0x01, 0x00]) := by decide +kernel
+/-- REPAIRED (A5; formerly `C01_finding_imm8_256`: accepted, 3 bytes for size 2): `LDA #256` is rejected -/
+theorem C01_finding_imm8_256_fixed : asmOne "LDA" "#256" = none := by decide +kernel
 
-/-- `LDA #-200`: accepted, and only the high byte of the 16-bit two's complement is emitted -/
-theorem C01_finding_imm8_neg_wide : asmOne "LDA" "#-200" = some (2, [0x86, 0xFF]) := by decide +kernel
+/-- REPAIRED (A5; formerly `C01_finding_imm8_neg_wide`: `86 FF`): `LDA #-200` is rejected -/
+theorem C01_finding_imm8_neg_wide_fixed : asmOne "LDA" "#-200" = none := by decide +kernel
 
-/-- `LDA [$10]`: the two-digit literal carries hint 2, so ONE address byte follows the `$9F` post byte
-(size says 4), and the datasheet decoder cannot read the result -/
-theorem C01_finding_extInd_hint2 :
-    asmOne "LDA" "[$10]" = some (4, [0xA6, 0x9F, 0x10]) ∧ asmDecode "LDA" "[$10]" = none := by decide +kernel
+/-- REPAIRED (A6; formerly `C01_finding_extInd_hint2`: one address byte, undecodable): `LDA [$10]` has two address
+bytes and reads back as `[$0010]` -/
+theorem C01_finding_extInd_hint2_fixed :
+    asmOne "LDA" "[$10]" = some (4, [0xA6, 0x9F, 0x00, 0x10]) ∧
+    asmDecode "LDA" "[$10]" = some (⟨"LDA", .idx (.extInd 0x10)⟩, 4) := by decide +kernel
 
-/-- `LDA <$1000`: a forced direct operand of four digits is emitted with two address bytes -/
-theorem C01_finding_explicit_direct_wide : asmOne "LDA" "<$1000" = some (2, [0x96, 0x10, 0x00]) := by
-  decide +kernel
+/-- REPAIRED (A7; formerly `C01_finding_explicit_direct_wide`: `96 10 00`): `LDA <$1000` is rejected -/
+theorem C01_finding_explicit_direct_wide_fixed : asmOne "LDA" "<$1000" = none := by decide +kernel
 
-/-- `PSHU S` (and `PSHS S`): the model has no bit for S, the post byte is 0 -/
+/-- STILL A FINDING (A10): `PSHU S` (and `PSHS S`): the model has no bit for S, the post byte is 0 -/
 theorem C01_finding_push_S :
     asmOne "PSHU" "S" = some (2, [0x36, 0x00]) ∧ asmOne "PSHS" "S" = some (2, [0x34, 0x00]) := by decide +kernel
 
-/-- the general form of the negative 8-bit offset defect: for EVERY indexed row, register and magnitude
-17..128 the package announces `indSz` bytes but carries one more -/
-theorem C01_finding_neg8_offset_general {r : InstrRow} (hr : r ∈ Gen.instructions) (hp : r.isPseudo = false)
+/-- REPAIRED, general form (formerly `C01_finding_neg8_offset_general`: one byte more than announced): for EVERY
+indexed row, register and magnitude 17..128 the statement is encoded, `size` included -/
+theorem C01_finding_neg8_offset_general_fixed {r : InstrRow} (hr : r ∈ Gen.instructions) (hp : r.isPseudo = false)
     {o : Asm.Operand} {c k i : Nat} {h : Option Nat} {m : Mode} (hk : o.kind = .indexed) (hc : r.ind = some c)
     (hle : o.left = .val (.numeric i h m true)) (h1 : 17 ≤ i) (h2 : i ≤ 128) (hk4 : k < 4)
-    (hrr : o.right = some (regName k)) :
-    ∃ pkg bytes, translateOperand o r = .ok pkg ∧ pkgBytes pkg = some bytes ∧ bytes.length = pkg.size + 1 := by
-  have hl := cell_ind hr hp hc
-  have h0 := cell_ne_zero hl.1 (by decide)
-  have hlt := cell_lt hl.1
-  have hpb : regBits (regName k) ||| ((if false = true then 0x90 else 0x80) + 0x08) = 128 + 32 * k + 8 := by
-    rw [regBits_regName k hk4]; exact or_high k hk4 8 (by omega)
-  have ht : translateOperand o r = translateIndexed o r := by simp [translateOperand, hk]
-  rw [translateIndexed_offset hc h0 hlt hle (by omega) hrr,
-    translateOffset_neg8 hc hlt (regName_plain k hk4) (Or.inr h1) (by omega) h2 (by rw [hpb]; omega), hpb] at ht
-  refine ⟨_, opcodeBytes c ++ [128 + 32 * k + 8] ++ [256 - i], ht, ?_, ?_⟩
-  · simp [pkgBytes, emit_opv hlt, emit_hint2 _ (show 128 + 32 * k + 8 < 256 by omega),
-      emit_hint2 _ (show 256 - i < 256 by omega)]
-  · simp [opcodeBytes_length, hl.2]
+    (hrr : o.right = some (regName k)) : Encodes o r (.idx (.off k (-(i : Int)) false 8)) :=
+  (C01_offset hr hp hk hc hk4 hrr).2.2.2.1 hle h1 h2
 
 /-- the operand `createOperand` / `resolveOperand` build for `LDD 100,X` -/
 def lddOffset : Asm.Operand :=
   { kind := .indexed, text := str "100,X", value := .leftRight (str "100") (str "X") .extended,
     left := .val (.numeric 100 (some 4) .extended false), right := some ['X'] }
 
-theorem lddOffset_row : ∃ r ∈ Gen.instructions, r.isPseudo = false ∧ r.ind = some 0xEC ∧
-    sizeAndBytes lddOffset r = some (3, [0xEC, 0x88, 0x00, 0x64]) := by decide +kernel
+/-- REPAIRED (formerly the counterexample of `C01_Statement_false`): the `LDD 100,X` operand is encoded -/
+theorem lddOffset_row_fixed : ∃ r ∈ Gen.instructions, r.isPseudo = false ∧ r.ind = some 0xEC ∧
+    sizeAndBytes lddOffset r = some (3, [0xEC, 0x88, 0x64]) := by decide +kernel
 
-/-- C01 (ii) at full strength does NOT hold for the model -/
+/-- the operand `createOperand` builds for `PSHU S` -/
+def pshuS : Asm.Operand := { kind := .special, text := str "S", value := .none }
+
+theorem pshuS_row : ∃ r ∈ Gen.instructions, r.isPseudo = false ∧ r.mnemonic = "PSHU" ∧
+    sizeAndBytes pshuS r = some (2, [0x36, 0x00]) ∧ decode [0x36, 0x00] = some (⟨"PSHU", .list 0⟩, 2) := by
+  decide +kernel
+
+/-- C01 (ii) at full strength does NOT hold for the model: `PSHU S` stands for the register list `$40`
+(bit 6 is the other stack pointer) and is assembled with the empty list (finding A10) -/
 theorem C01_Statement_false : ¬ C01_Statement := by
   intro hall
-  obtain ⟨r, hr, hp, hc, hs⟩ := lddOffset_row
-  have hi : Intends r lddOffset (.idx (.off 0 100 false 8)) := by
-    have := Intends.off8 (r := r) (o := lddOffset) (k := 0) (i := 100) (h := some 4) (m := .extended)
-      (neg := false) rfl hc rfl (by omega) rfl (by simp [signedVal]) (by simp [signedVal]) (by simp [signedVal])
-    simpa [signedVal] using this
-  exact not_encodes_of_size hs (by decide) _ (hall r hr hp _ _ hi)
+  obtain ⟨r, hr, hp, hm, hs, hd⟩ := pshuS_row
+  have hi : Intends r pshuS (.list (dsMask (isUStack r.mnemonic) [str "S"])) :=
+    Intends.list (r := r) (o := pshuS) (regs := [str "S"]) (by rw [hm]; decide) rfl (by simp)
+      (by intro x hx; simp only [List.mem_singleton] at hx; subst hx; rw [hm]; decide) rfl
+  have hmask : dsMask (isUStack r.mnemonic) [str "S"] = 0x40 := by rw [hm]; decide
+  rw [hmask] at hi
+  exact not_encodes_of_decode hs hd _ (by decide) (hall r hr hp _ _ hi)
 
 /-! ## non-vacuity: source statements inside the proved region, end to end -/
 
@@ -612,13 +797,17 @@ example : shape "LDA" "5,X" = some ⟨.indexed, some ['X'], 5, some 2, false⟩ 
 example : shape "LDA" "100,Y" = some ⟨.indexed, some ['Y'], 100, some 2, false⟩ := by decide +kernel
 example : shape "LDA" "[5,X]" = some ⟨.extIndirect, some ['X'], 5, some 2, false⟩ := by decide +kernel
 example : shape "LDD" "100,X" = some ⟨.indexed, some ['X'], 100, some 4, false⟩ := by decide +kernel
+example : shape "LDA" "-17,X" = some ⟨.indexed, some ['X'], 17, none, true⟩ := by decide +kernel
 
 example : asmDecode "NOP" "" = some (⟨"NOP", .none⟩, 1) := by decide +kernel
 example : asmDecode "SWI2" "" = some (⟨"SWI2", .none⟩, 2) := by decide +kernel
 example : asmDecode "LDA" "#$7F" = some (⟨"LDA", .imm 8 0x7F⟩, 2) := by decide +kernel
 example : asmDecode "LDA" "#-1" = some (⟨"LDA", .imm 8 0xFF⟩, 2) := by decide +kernel
+example : asmDecode "LDA" "#-128" = some (⟨"LDA", .imm 8 0x80⟩, 2) := by decide +kernel
 example : asmDecode "LDX" "#$1234" = some (⟨"LDX", .imm 16 0x1234⟩, 3) := by decide +kernel
+example : asmDecode "LDX" "#-1" = some (⟨"LDX", .imm 16 0xFFFF⟩, 3) := by decide +kernel
 example : asmDecode "LDA" "$10" = some (⟨"LDA", .dir 0x10⟩, 2) := by decide +kernel
+example : asmDecode "LDA" ">$10" = some (⟨"LDA", .ext 0x10⟩, 3) := by decide +kernel
 example : asmDecode "LSL" "$1000" = some (⟨"ASL", .ext 0x1000⟩, 3) := by decide +kernel
 example : asmDecode "LDA" "[$1000]" = some (⟨"LDA", .idx (.extInd 0x1000)⟩, 4) := by decide +kernel
 example : asmDecode "LDA" ",X+" = some (⟨"LDA", .idx (.inc1 0)⟩, 2) := by decide +kernel
@@ -628,6 +817,10 @@ example : asmDecode "LDA" "D,U" = some (⟨"LDA", .idx (.acc 11 2 false)⟩, 2) 
 example : asmDecode "LDA" "5,X" = some (⟨"LDA", .idx (.off 0 5 false 5)⟩, 2) := by decide +kernel
 example : asmDecode "LDA" "-16,Y" = some (⟨"LDA", .idx (.off 1 (-16) false 5)⟩, 2) := by decide +kernel
 example : asmDecode "LDA" "100,X" = some (⟨"LDA", .idx (.off 0 100 false 8)⟩, 3) := by decide +kernel
+example : asmDecode "LDD" "100,X" = some (⟨"LDD", .idx (.off 0 100 false 8)⟩, 3) := by decide +kernel
+example : asmDecode "LDA" "-17,X" = some (⟨"LDA", .idx (.off 0 (-17) false 8)⟩, 3) := by decide +kernel
+example : asmDecode "LDA" "-200,X" = some (⟨"LDA", .idx (.off 0 (-200) false 16)⟩, 4) := by decide +kernel
+example : asmDecode "LDA" "[-5,X]" = some (⟨"LDA", .idx (.off 0 (-5) true 8)⟩, 3) := by decide +kernel
 example : asmDecode "LDA" "1000,Y" = some (⟨"LDA", .idx (.off 1 1000 false 16)⟩, 4) := by decide +kernel
 example : asmDecode "CMPS" "[300,U]" = some (⟨"CMPS", .idx (.off 2 300 true 16)⟩, 5) := by decide +kernel
 example : asmDecode "TFR" "A,B" = some (⟨"TFR", .pair 8 9⟩, 2) := by decide +kernel
@@ -642,10 +835,46 @@ example : ∃ r ∈ Gen.instructions, r.mnemonic = "LDA" ∧
     decide +kernel
   obtain ⟨r, hr, hm, hp, hc⟩ := hrow
   exact ⟨r, hr, hm, fun o hk hl hrr =>
-    C01_partial hr hp (.off8pos (k := 0) (i := 100) hk hc hl (by decide) (by decide) (Or.inr rfl) (by decide) hrr)⟩
+    C01_partial hr hp (.off8pos (k := 0) (i := 100) hk hc hl (by decide) (by decide) (by decide) hrr)⟩
+
+/-- an instance on the formerly excluded operand of `LDD 100,X` (size hint 4 on an 8-bit offset) -/
+example : ∃ r ∈ Gen.instructions, r.mnemonic = "LDD" ∧ Encodes lddOffset r (.idx (.off 0 100 false 8)) := by
+  have hrow : ∃ r ∈ Gen.instructions, r.mnemonic = "LDD" ∧ r.isPseudo = false ∧ r.ind = some 0xEC := by
+    decide +kernel
+  obtain ⟨r, hr, hm, hp, hc⟩ := hrow
+  exact ⟨r, hr, hm, C01_partial hr hp (.off8pos (k := 0) (i := 100) rfl hc rfl (by decide) (by decide) (by decide) rfl)⟩
+
+/-- `C01_partial_emitted` on `LDD 100,X`: the hypotheses are met -/
+example : ∃ r ∈ Gen.instructions, r.mnemonic = "LDD" ∧ ∃ pkg bytes, translateOperand lddOffset r = .ok pkg ∧
+    (∀ (ss : List Stmt) (i : Nat) (s : Stmt), s.row = r → s.operand = lddOffset → s.pkg = pkg →
+      ∃ s', (match fixOne ss i s with | .ok s1 => fitWidth s1 | o => o) = .ok s' ∧ stmtBytes s' = some bytes) ∧
+    bytes.length = pkg.size ∧ decode bytes = some (⟨opOf r.mnemonic, .idx (.off 0 100 false 8)⟩, bytes.length) := by
+  have hrow : ∃ r ∈ Gen.instructions, r.mnemonic = "LDD" ∧ r.isPseudo = false ∧ r.ind = some 0xEC := by
+    decide +kernel
+  obtain ⟨r, hr, hm, hp, hc⟩ := hrow
+  exact ⟨r, hr, hm, C01_partial_emitted hr hp
+    (.off8pos (k := 0) (i := 100) rfl hc rfl (by decide) (by decide) (by decide) rfl)
+    (labelFree_of_leftRight (by decide) rfl)⟩
+
+/-- `C01_full_except_S` on the operand of `LDX #-1` (a negative value with size hint 4 in a 16-bit field): the
+intended operand is `$FFFF`, and that is what is encoded -/
+example : ∃ r ∈ Gen.instructions, r.mnemonic = "LDX" ∧
+    Encodes { kind := .immediate, text := str "#-1", value := .numeric 1 (some 4) .immediate true } r
+      (.imm 16 (twos (signedVal 1 true) 16)) ∧ twos (signedVal 1 true) 16 = 0xFFFF := by
+  have hrow : ∃ r ∈ Gen.instructions, r.mnemonic = "LDX" ∧ r.isPseudo = false ∧ r.imm = some 0x8E ∧
+      lookup 0x8E = some ("LDX", .imm16) := by decide +kernel
+  obtain ⟨r, hr, hm, hp, hc, hl⟩ := hrow
+  refine ⟨r, hr, hm, ?_, by decide⟩
+  exact C01_full_except_S hr hp (Intends.imm16 (h := some 4) (m := .immediate) rfl hc hl rfl (by decide) (by decide))
+    (fun hk => by cases hk)
 
 end CoCo.Props
 
 section axioms
 open CoCo.Props
+#print axioms C01_partial
+#print axioms C01_partial_emitted
+#print axioms C01_full_except_S
+#print axioms C01_Statement_false
+#print axioms region_sub_intends
 end axioms
